@@ -2632,3 +2632,6 @@ pub mod macros {
 /// The attribute rewriters of `attr.rs` on the attribute lists of a parsed snippet
 /// (`src/verif_hooks/attrs.rs`).
 pub mod attrs;
+/// The type, bound and where-predicate rewriters of `types.rs` at a given shape
+/// (`src/verif_hooks/types.rs`).
+pub mod types;
